@@ -169,11 +169,24 @@ def _synthetic(name: str) -> bytes:
         def nest(kind, depth):
             x = "<m:r><m:t>x</m:t></m:r>"
             for _ in range(depth):
-                x = {"d": f"<m:d><m:e>{x}</m:e></m:d>", "f": f"<m:f><m:num>{x}</m:num><m:den><m:r><m:t>2</m:t></m:r></m:den></m:f>",
-                     "rad": f"<m:rad><m:deg/><m:e>{x}</m:e></m:rad>", "sSup": f"<m:sSup><m:e>{x}</m:e><m:sup><m:r><m:t>2</m:t></m:r></m:sup></m:sSup>",
-                     "func": f"<m:func><m:fName><m:r><m:t>sin</m:t></m:r></m:fName><m:e>{x}</m:e></m:func>"}[kind]
+                one = "<m:r><m:t>2</m:t></m:r>"
+                x = {"d": f"<m:d><m:e>{x}</m:e></m:d>", "f": f"<m:f><m:num>{x}</m:num><m:den>{one}</m:den></m:f>", "f-den": f"<m:f><m:num>{one}</m:num><m:den>{x}</m:den></m:f>",
+                     "rad": f"<m:rad><m:deg/><m:e>{x}</m:e></m:rad>", "rad-deg": f"<m:rad><m:deg>{x}</m:deg><m:e>{one}</m:e></m:rad>",
+                     "sSup": f"<m:sSup><m:e>{x}</m:e><m:sup>{one}</m:sup></m:sSup>", "sSup-sup": f"<m:sSup><m:e>{one}</m:e><m:sup>{x}</m:sup></m:sSup>",
+                     "sSub-sub": f"<m:sSub><m:e>{one}</m:e><m:sub>{x}</m:sub></m:sSub>", "sSubSup-sub": f"<m:sSubSup><m:e>{one}</m:e><m:sub>{x}</m:sub><m:sup>{one}</m:sup></m:sSubSup>",
+                     "sPre-sup": f"<m:sPre><m:sub>{one}</m:sub><m:sup>{x}</m:sup><m:e>{one}</m:e></m:sPre>",
+                     "func": f"<m:func><m:fName><m:r><m:t>sin</m:t></m:r></m:fName><m:e>{x}</m:e></m:func>",
+                     "nary-e": f'<m:nary><m:naryPr><m:chr m:val="&#8721;"/></m:naryPr><m:sub>{one}</m:sub><m:sup>{one}</m:sup><m:e>{x}</m:e></m:nary>',
+                     "nary-sub": f'<m:nary><m:naryPr><m:chr m:val="&#8721;"/></m:naryPr><m:sub>{x}</m:sub><m:sup>{one}</m:sup><m:e>{one}</m:e></m:nary>',
+                     "nary-sup": f'<m:nary><m:naryPr><m:chr m:val="&#8747;"/></m:naryPr><m:sub>{one}</m:sub><m:sup>{x}</m:sup><m:e>{one}</m:e></m:nary>',
+                     "limLow-lim": f"<m:limLow><m:e>{one}</m:e><m:lim>{x}</m:lim></m:limLow>", "limUpp-e": f"<m:limUpp><m:e>{x}</m:e><m:lim>{one}</m:lim></m:limUpp>",
+                     "acc": f'<m:acc><m:accPr><m:chr m:val="&#770;"/></m:accPr><m:e>{x}</m:e></m:acc>', "bar": f"<m:bar><m:e>{x}</m:e></m:bar>",
+                     "groupChr": f"<m:groupChr><m:e>{x}</m:e></m:groupChr>", "box": f"<m:box><m:e>{x}</m:e></m:box>", "borderBox": f"<m:borderBox><m:e>{x}</m:e></m:borderBox>",
+                     "eqArr": f"<m:eqArr><m:e>{x}</m:e><m:e>{one}</m:e></m:eqArr>", "m": f"<m:m><m:mr><m:e>{x}</m:e><m:e>{one}</m:e></m:mr><m:mr><m:e>{one}</m:e><m:e>{one}</m:e></m:mr></m:m>"}[kind]
             return f'<w:p><m:oMath xmlns:m="{M_NS}">{x}</m:oMath></w:p>'
-        eqs = "".join(nest(k, 48) for k in ("d", "f", "rad", "sSup", "func"))
+        # every structure kind, nested through each of its operand slots
+        eqs = "".join(nest(k, 48) for k in ("d", "f", "f-den", "rad", "rad-deg", "sSup", "sSup-sup", "sSub-sub", "sSubSup-sub", "sPre-sup", "func", "nary-e", "nary-sub", "nary-sup",
+                                            "limLow-lim", "limUpp-e", "acc", "bar", "groupChr", "box", "borderBox", "eqArr", "m"))
         zin = _zf.ZipFile(_io.BytesIO(base))
         buf = _io.BytesIO()
         with _zf.ZipFile(buf, "w", _zf.ZIP_DEFLATED) as z:
